@@ -43,6 +43,11 @@ type ConcRunner struct {
 	Viol  []Violation
 	U     *model.Universe
 	Obs   []prog.Op
+
+	// AckedGrant is the lock-grant stamp of the latest write transaction
+	// whose Update has returned success (crash images of scheduled runs).
+	AckedGrant int64
+	merging    int
 }
 
 func (c *ConcRunner) viol(class string, step int, sig, format string, args ...interface{}) {
@@ -50,10 +55,13 @@ func (c *ConcRunner) viol(class string, step int, sig, format string, args ...in
 }
 
 // NewConcRunner prepares the world, opens the databases (before scheduling starts).
-func NewConcRunner(seed uint64, p *prog.Program) *ConcRunner {
+func NewConcRunner(seed uint64, p *prog.Program, pre ...func(w *core.World)) *ConcRunner {
 	w := core.NewWorld(seed)
 	w.Clock.Tick = p.Cfg.Tick
 	w.Faults.Faults = p.Faults
+	for _, f := range pre {
+		f(w) // e.g. a snapshot policy, which must be in place before Open
+	}
 	core.Use(w)
 	core.ResetSeqLocks()
 	simmmap.Reset()
@@ -94,6 +102,7 @@ func (c *ConcRunner) Run(schedRng *core.Rng, switchP float64) {
 		s.Replay = c.P.Schedule
 	}
 	c.Sched = s
+	c.W.SnapInfo = func() (int, int) { return int(c.AckedGrant), int(s.CurSeq()) }
 	ntasks := c.P.Tasks
 	if ntasks <= 0 {
 		ntasks = 1
@@ -168,10 +177,21 @@ func (c *ConcRunner) step(tid int, st *prog.Step) {
 		rec.Panic = pan
 		if err != nil {
 			rec.Err = err.Error()
+		} else if rec.Writable && pan == "" && rec.Grant > c.AckedGrant {
+			// stores through a mapping are attributed to the time before the
+			// acknowledgement
+			c.W.Disk.FlushMmap()
+			c.AckedGrant = rec.Grant
 		}
 	case prog.SMerge:
 		var err error
+		c.merging++
+		c.W.Phase = "merge"
 		rec.Panic = Safe(func() { err = db.Merge() })
+		c.merging--
+		if c.merging == 0 {
+			c.W.Phase = ""
+		}
 		if err != nil {
 			rec.Err = err.Error()
 		}
